@@ -428,6 +428,50 @@ func coGenFirstOther(rng *rand.Rand, typ uint16, syscallNum string) C09Case {
 	return c
 }
 
+// coGenLarge: shape 0 = n PATH records, 1 = EXECVE with n arguments, 2 = values of 16*n bytes, 3 = n records of mixed kinds.
+func coGenLarge(rng *rand.Rand, n int, shape int) C09Case {
+	seq := rng.Uint32()
+	ms := int64(1500000000)*1000 + int64(rng.Intn(1000))
+	var c C09Case
+	addRec := func(typ uint16, body string) { c.Recs = append(c.Recs, coal.Rec{Typ: typ, Seq: seq, Ms: ms, Body: body}) }
+	_, sbody := coGenBody(rng, coKSyscall, 0)
+	addRec(tSYSCALL, sbody)
+	switch shape {
+	case 0:
+		addRec(tCWD, "cwd=\"/work\"")
+		for i := 0; i < n; i++ {
+			addRec(tPATH, fmt.Sprintf("item=%d name=\"/d/f%d\" inode=%d dev=fd:00 mode=0100644 ouid=%d ogid=0 rdev=00:00 obj=u:r:t:s0 nametype=%s",
+				i, i, 1000+i, i%7, []string{"NORMAL", "PARENT", "CREATE", "UNKNOWN", "DELETE"}[i%5]))
+		}
+	case 1:
+		var b strings.Builder
+		fmt.Fprintf(&b, "argc=%d", n)
+		for i := 0; i < n; i++ {
+			if i%4 == 0 {
+				fmt.Fprintf(&b, " a%d=%s", i, coUpHex(fmt.Sprintf("arg %d", i)))
+			} else {
+				fmt.Fprintf(&b, " a%d=\"v%d\"", i, i)
+			}
+		}
+		addRec(tEXECVE, b.String())
+	case 2:
+		long := strings.Repeat("0123456789abcdef", n)
+		addRec(tCWD, "cwd="+coUpHex("/sp ace/"+long))
+		addRec(tPATH, "item=0 name=\"/"+long+"\" inode=7 dev=fd:00 mode=0100600 ouid=0 ogid=0 rdev=00:00 nametype=NORMAL")
+		addRec(tPROCTITLE, "proctitle="+coUpHex("cmd\x00"+long))
+	default:
+		for i := 0; i < n; i++ {
+			k := []int{coKPath, coKCwd, coKProctitle, coKSockaddr, coKOther, coKAvc, coKExecve}[i%7]
+			typ, body := coGenBody(rng, k, i%2)
+			addRec(typ, body)
+		}
+	}
+	if rng.Intn(2) == 0 {
+		addRec(tEOE, "")
+	}
+	return c
+}
+
 // coGenModeCase: a group whose selected PATH record has st_mode m.  The surrounding records vary
 // with m so that the 65 536 cases also sweep path-index hints and PARENT/UNKNOWN skipping.
 func coGenModeCase(rng *rand.Rand, m uint32) C09Case {
